@@ -229,8 +229,8 @@ def main():
     res = ck.step_generate('Gen_C03', TARGETS)
     if res is not None:
         ck.step_prove('P_C03')
-    n = 2500 if ck.thorough() else 100
-    goals = run_cases(ck, res, n, 12 if ck.thorough() else 4)
+    n = 12000 if ck.thorough() else 100
+    goals = run_cases(ck, res, n, 40 if ck.thorough() else 4)
     shape_cases(ck, res)
     if res is not None:
         ck.step_interval_goals('corr', goals)
